@@ -5,6 +5,10 @@ b  Armijo: monotone residual (Armijo trial or best-point fallback), raise otherw
 c  step cap dominates every trial point (both steppers); constructor defaults in range
 d  shooting configurations are symmetric ones; period = 2 x half-period
 e  analytic Jacobian pieces: halo quadratic term == field accelerations; residual/Jacobian assembly; central differences
+
+d (added)  start symmetry: the analytic start state lies in the fixed set of a reversing symmetry whose free coordinates contain the
+           controls; same symmetry at both ends -> period 2*tau, different -> 4*tau
+e (added)  tolerance chain: the crossing integrator and event location are no looser than the default convergence tolerance
 """
 from __future__ import annotations
 
